@@ -409,6 +409,18 @@ func (w *world) streaming(t *rt.Tape, trace bool, res *core.Result) *core.Result
 		return res
 	}
 	if !o.GDone || o.GErr != nil || len(o.RR.Crashed) > 0 {
+		// a clean session that breaks is C05's business - but what the garbler transmitted before it
+		// broke is an execution of the protocol like any other: it is scanned, and only if that
+		// finds nothing is the case put aside
+		if r, ok, _ := offsetFromWires(o.OTWires); ok {
+			if wi, off, bad := clearLabelOfOTWire(o.GE, o.OTWires); bad {
+				res.Fail = &core.Failure{Clause: "both-labels-obtainable", Detail: fmt.Sprintf("streaming session (it failed later: garbler done=%v err=%v): the garbler handed %d wires to the OT layer, and a label of wire #%d of them also travels in the clear at byte offset %d of its transcript: the evaluator holds that label and can choose the other one by OT", o.GDone, o.GErr, len(o.OTWires), wi, off)}
+				return res
+			}
+			if report(res, "streaming session that failed later", Scan(o.GE, r, 8), o.GE); res.Fail != nil {
+				return res
+			}
+		}
 		res.Discard = true // C05's business
 		res.Reach["discard: streaming: clean session broken (C05's business)"]++
 		return res
@@ -425,6 +437,10 @@ func (w *world) streaming(t *rt.Tape, trace bool, res *core.Result) *core.Result
 	}
 	res.Reach["streaming.transcripts-scanned"]++
 	res.Reach["bytes-scanned"] += len(o.GE)
+	if wi, off, bad := clearLabelOfOTWire(o.GE, o.OTWires); bad {
+		res.Fail = &core.Failure{Clause: "both-labels-obtainable", Detail: fmt.Sprintf("streaming session: the garbler handed %d wires to the OT layer, and a label of wire #%d of them also travels in the clear at byte offset %d of its transcript: the evaluator holds that label and can choose the other one by OT", len(o.OTWires), wi, off)}
+		return res
+	}
 	report(res, "streaming session", Scan(o.GE, r, 8), o.GE)
 	return res
 }
